@@ -250,8 +250,34 @@ def decode_delegates_to_validator(repo, module):
 
 
 class Solver:
-  def __init__(self, timeout_ms=60000):
+  """z3 (Python API) decides; with cross=True every query is also written as SMT-LIB2 and given to the cvc5 and
+  z3 binaries on PATH (other implementations / versions): a sat/unsat disagreement is recorded in .disagreements
+  and makes the verdict 'unknown' (inconclusive); 'unknown'/timeouts of the second solvers are only counted."""
+  def __init__(self, timeout_ms=60000, cross=False, cross_timeout_s=30):
     self.queries = 0; self.solver_s = 0.0; self.timeout_ms = timeout_ms
+    self.cross = cross; self.cross_timeout_s = cross_timeout_s
+    self.cross_results = {"cvc5": {"agree": 0, "unknown": 0}, "z3-binary": {"agree": 0, "unknown": 0}}
+    self.disagreements = []
+
+  def _second(self, name, cmd, text):
+    import subprocess, tempfile, os
+    fd, fn = tempfile.mkstemp(suffix=".smt2", prefix="verif-e2-")
+    try:
+      with os.fdopen(fd, "w") as fh: fh.write(text)
+      t = time.perf_counter()
+      try:
+        out = subprocess.run(cmd + [fn], capture_output=True, text=True, timeout=self.cross_timeout_s + 10)
+        lines = [l.strip() for l in (out.stdout + "\n" + out.stderr).splitlines() if l.strip()]
+      except Exception as e:
+        lines = ["unknown (%s)" % type(e).__name__]
+      self.solver_s += time.perf_counter() - t
+      if any(l.startswith("(error") for l in lines): return "unknown"
+      for l in lines:
+        if l in ("sat", "unsat"): return l
+      return "unknown"
+    finally:
+      try: os.unlink(fn)
+      except OSError: pass
 
   def check(self, *constraints):
     sol = z3.Solver(); sol.set("timeout", self.timeout_ms)
@@ -259,9 +285,21 @@ class Solver:
     t = time.perf_counter()
     r = sol.check()
     self.solver_s += time.perf_counter() - t; self.queries += 1
+    verdict = str(r)
+    if self.cross and verdict in ("sat", "unsat"):
+      text = "(set-logic QF_SLIA)\n" + sol.to_smt2()
+      for name, cmd in (("cvc5", ["cvc5", "--strings-exp", "--tlimit=%d" % (self.cross_timeout_s * 1000)]),
+                        ("z3-binary", ["/usr/bin/z3", "-T:%d" % self.cross_timeout_s])):
+        v2 = self._second(name, cmd, text)
+        self.queries += 1
+        if v2 == verdict: self.cross_results[name]["agree"] += 1
+        elif v2 == "unknown": self.cross_results[name]["unknown"] += 1
+        else:
+          self.disagreements.append("%s answered %s where z3 (API) answered %s" % (name, v2, verdict))
+          return "unknown (solvers disagree: %s=%s, z3=%s)" % (name, v2, verdict), None
     if r == z3.sat:
       return "sat", sol.model()
-    return str(r), None
+    return verdict, None
 
 
 def eval_in_model(expr_of_s, s, value):
